@@ -68,6 +68,9 @@ type Scenario struct {
 	Kind     string `json:"kind"`
 	DataSeed uint64 `json:"data_seed"`
 	Ops      []Op   `json:"ops"`
+	// KeepRef: the checkpoint store keeps the slice MarshalBinary returned
+	// (an in-memory checkpoint / page cache) instead of copying it at once
+	KeepRef bool `json:"keep_ref,omitempty"`
 	// Sweep, if set, is an enumerated corruption case: the checkpoint taken
 	// after Pre bytes gets byte SweepPos set to every value 0..255 in turn.
 	Sweep    bool `json:"sweep,omitempty"`
@@ -85,7 +88,7 @@ func data(seed uint64, n int) []byte {
 }
 
 func gen(r *rand.Rand, prop, tier string, index int) any {
-	s := &Scenario{Kind: kinds[r.IntN(len(kinds))], DataSeed: r.Uint64()}
+	s := &Scenario{Kind: kinds[r.IntN(len(kinds))], DataSeed: r.Uint64(), KeepRef: r.IntN(3) == 0}
 	nops := 2 + r.IntN(14)
 	ck, cr := 0, 0
 	faulty := r.IntN(3) == 0 // two thirds of the runs are free of corrupting faults: exact oracle
@@ -272,6 +275,9 @@ func runHarness(c *core.Ctx, scnAny any) {
 				return
 			}
 			nb := append([]byte(nil), b...)
+			if s.KeepRef && o.Fault == "" {
+				nb = b // the store holds on to the returned slice
+			}
 			corrupt := tainted
 			pos := func(n int) int {
 				if n == 0 {
